@@ -207,3 +207,4 @@ TECHNIQUE = 'runtime differential oracle: AST equality of the same live value pr
 LEVEL_TEXT = ('Thousands of values from five generators (built-ins, commented, stdlib, subclasses, pretty_call user types) are each printed under 8 (thorough 40) configurations including the extremes '
               'and the boundary widths of their one-line form; all outputs of one value must parse to the same syntax tree and every line must be indented by a multiple of indent.')
 LEVEL_NOTE = 'Configurations are sampled from width, ribbon in [1,200] and indent in [1,8]; compares all-against-first, which is equivalent to all pairs for an equality relation.'
+ANCHORS = ['prettyprinter.bracket', 'prettyprinter.sequence_of_docs', 'prettyprinter.build_fncall', 'prettyprinter.pretty_dict', 'prettyprinter.commentdoc', 'layout.smart_fitting_predicate']
